@@ -426,3 +426,23 @@ package tcell
 //@            result == (encoderAccepts(ret.0, ret.2, pdst[0]) || has(t.acs, r) || (checkFallbacks && has(t.fallback, r)))
 //@   ensures [once] calls(Transform) == 1
 //@   modifies nothing
+
+// ---------------------------------------------------------------------------
+// C10: lock-ownership classes of the screen types.  Every field is classified; the verifier checks every
+// access site, every Lock/Unlock and the balance of every entry point (exported methods, goroutine bodies,
+// callbacks).  Functions listed under initfuncs run before the screen is shared with other goroutines.
+// ---------------------------------------------------------------------------
+
+//@ lockclass tScreen
+//@   guarded h w fini cells buffering buf curstyle style cx cy clear cursorx cursory colors fallback
+//@   guarded escaped buttondn running mouseFlags pasteEnabled focusEnabled cursorStyle cursorColor title saved stopQ
+//@   initonly ti tty mouse keyexist keycodes keychan acs charset encoder decoder palette truecolor quit eventQ resizeQ
+//@   initonly enablePaste disablePaste enterUrl exitUrl setWinSize enableFocus disableFocus doubleUnder curlyUnder
+//@   initonly dottedUnder dashedUnder underColor underRGB underFg cursorStyles cursorRGB cursorFg
+//@   initonly setTitle saveTitle restoreTitle setClipboard
+//@   confined keytimer keyexpire
+//@   channel finiOnce wg Mutex
+//@   initfuncs Init initialize NewTerminfoScreenFromTtyTerminfo prepareKeys prepareKeyMod prepareKeyModReplace prepareKeyModXTerm prepareKey
+//@   initfuncs prepareXtermModifiers prepareBracketedPaste prepareUnderlines prepareExtendedOSC prepareCursorStyles buildAcsMap nColors
+//@   conffuncs mainLoop
+//@   entry mainLoop inputLoop
